@@ -262,7 +262,7 @@ theorem addOpExec_ts {ex exo} {ts : TState} {t : Task} {q0 : ScqId} {w : WId} {o
     (hso : ∀ o op', s'.op? o = some op' → (o = opn ∧ op'.inv = inv ∧ op'.prio = prio) ∨
       (o ≠ opn ∧ ∃ op, ts.s.op? o = some op ∧ op'.inv = op.inv ∧ op'.prio = op.prio)) :
     TS [] (({ ((ts.create t.scq inv).setOX opn ⟨inv, prio⟩) with
-              nodes := incExec ((ts.create t.scq inv).setOX opn ⟨inv, prio⟩).nodes t.scq inv (some w) ts.s.now } : TState).setS s') := by
+              nodes := incExecR ts.legacyPrio ((ts.create t.scq inv).setOX opn ⟨inv, prio⟩).prioOf ((ts.create t.scq inv).setOX opn ⟨inv, prio⟩).nodes t.scq inv (some w) ts.s.now } : TState).setS s') := by
   have hS := hT.side
   have htnd := hT.inv.core.tnd
   have hqf : t.queued = false := by
@@ -276,7 +276,7 @@ theorem addOpExec_ts {ex exo} {ts : TState} {t : Task} {q0 : ScqId} {w : WId} {o
   let t1 : Task := { t with ops := t.ops ++ [opn] }
   let ns1 := getOrCreate ts.nodes t.scq inv ts.s.now
   let ts' : TState := ({ ((ts.create t.scq inv).setOX opn ⟨inv, prio⟩) with
-      nodes := incExec ((ts.create t.scq inv).setOX opn ⟨inv, prio⟩).nodes t.scq inv (some w) ts.s.now } : TState).setS s'
+      nodes := incExecR ts.legacyPrio ((ts.create t.scq inv).setOX opn ⟨inv, prio⟩).prioOf ((ts.create t.scq inv).setOX opn ⟨inv, prio⟩).nodes t.scq inv (some w) ts.s.now } : TState).setS s'
   show TS [] ts'
   have hoxo : ∀ k t', alookup k ts.s.tasks = some t' → ∀ o ∈ t'.ops, alookup o ox' = alookup o ts.ox := by
     intro k t' h o ho
@@ -303,16 +303,16 @@ theorem addOpExec_ts {ex exo} {ts : TState} {t : Task} {q0 : ScqId} {w : WId} {o
     rw [conQ_unqueued _ t hqf, conQ_unqueued _ t1 hqf, List.append_nil, List.append_nil] at this
     exact this
   refine ⟨?_, ?_⟩
-  · show TreeOK [] (incExec ns1 t.scq inv (some w) ts.s.now) (bagE ts') (bagI ts) (bagQ ts') (bagP ts)
+  · show TreeOK [] (incExecR ts.legacyPrio _ ns1 t.scq inv (some w) ts.s.now) (bagE ts') (bagI ts) (bagQ ts') (bagP ts)
     have h1 := getOrCreate_ok hT.tree t.scq inv ts.s.now hroot
     have hn1 : (node? ns1 t.scq inv).isSome = true :=
       getOrCreate_exists ts.nodes t.scq inv ts.s.now hroot inv (List.prefix_refl _)
-    have h2 := incExec_ok h1 t.scq inv (some w) ts.s.now hn1
+    have h2 := incExecR_ok h1 ts.legacyPrio ((ts.create t.scq inv).setOX opn ⟨inv, prio⟩).prioOf t.scq inv (some w) ts.s.now hn1
     rw [offPath_prefixes] at h2
     exact h2.congr hE' (List.Perm.refl _) (fun c => hQ'.mem_iff) (fun c => Iff.rfl)
   · refine side_mk hS (ts' := ts') ?_ rfl hsw (oxok_set hS hso) ?_
     · exact side_nodes' hS ((getOrCreate_nframe ts.nodes t.scq inv ts.s.now).trans
-          (incExec_nframe ns1 t.scq inv (some w) ts.s.now)) hsq
+          (incExecR_nframe ts.legacyPrio _ ns1 t.scq inv (some w) ts.s.now)) hsq
         (by intro q hq; simp only [List.append_nil, List.mem_singleton] at hq; subst hq; exact scq_of_node hS hroot)
     · intro k t'' q w' h1 h2
       change alookup k s'.tasks = some t'' at h1
@@ -419,7 +419,7 @@ private theorem removeOpTree_nodes_done (ts : TState) (t : Task) (o : Nat) {r : 
 
 private theorem removeOpTree_nodes_exec (ts : TState) (t : Task) (o : Nat) {q0 : ScqId} {w : WId}
     (hr : t.response = none) (hw : t.worker = some (q0, w)) :
-    (ts.removeOpTree t o).nodes = decExec ts.nodes t.scq (ts.invOf o) (some w) ts.s.now := by
+    (ts.removeOpTree t o).nodes = decExecR ts.legacyPrio ts.prioOf ts.nodes t.scq (ts.invOf o) (some w) ts.s.now := by
   unfold TState.removeOpTree; rw [hr, hw]
 
 private theorem removeOpTree_nodes_queued (ts : TState) (t : Task) (o : Nat)
@@ -511,7 +511,7 @@ theorem removeOp_ts {ex exo} {ts : TState} {t : Task} {o : Nat} {s' : State}
         have hE' : ((bagE ts).erase (t.scq, ts.invOf o, some w)).Perm (bagE ts') :=
           perm_remove hpE (hops.map _)
         rw [removeOpTree_nodes_exec ts t o hr hw]
-        have h := decExec_ok hT.tree t.scq (ts.invOf o) (some w) ts.s.now (mem_bagE ht hw hmem)
+        have h := decExecR_ok hT.tree ts.legacyPrio ts.prioOf t.scq (ts.invOf o) (some w) ts.s.now (mem_bagE ht hw hmem)
           (fun x hx => nomatch hx)
         exact h.congr hE' (List.Perm.refl _) (fun c => hpQ.mem_iff) (fun c => Iff.rfl)
       | none =>
